@@ -16,7 +16,8 @@ Driver for C17.  Operations (one per line):
                              (valid encodings of length ≤ maxlen with components in {0,1,2})
 * `relr <type> <ra> <rb> <a> <b>`, `relsr <type> <maxlen> <ra> <rb> <a>` — the same with the two values built along
                              route ra / rb of the harness (constructor, assignment over another value, element-wise
-                             writes, erase after insert, …); the model is a value model, the routes do not matter
+                             writes, erase after insert, …; + 8: inside a buffer pre-filled with a byte pattern); the model is a
+                             value model, the routes do not matter
 * `self <type> <ra> <a>`, `selfs <type> <maxlen> <ra>` — the SAME object on both sides
 * `relb <type> <base> <pos> <kind>` — digest of `rel` for all pairs (u, v) of boundary values (kind 0: 16-bit, 1: 32-bit)
                              put at position pos of base
@@ -547,20 +548,20 @@ def handle (toks : List String) : String :=
   | ["relr", ty, ra, rb, a, b] =>
     -- the routes say how the harness builds the two values; the value does not depend on them
     match tyName ty, ra.toNat?, rb.toNat?, parseIntList a, parseIntList b with
-    | some ty, some ra, some rb, some a, some b => if ra ≤ 7 && rb ≤ 7 then relLine ty a b else "bad-op"
+    | some ty, some ra, some rb, some a, some b => if ra ≤ 15 && rb ≤ 15 then relLine ty a b else "bad-op"
     | _, _, _, _, _ => "bad-op"
   | ["relsr", ty, ml, ra, rb, a] =>
     match tyName ty, ml.toNat?, ra.toNat?, rb.toNat?, parseIntList a with
     | some ty, some ml, some ra, some rb, some a =>
-      if valid ty a && ml ≤ 8 && ra ≤ 7 && rb ≤ 7 then relsDigest ty ml a else "bad-op"
+      if valid ty a && ml ≤ 8 && ra ≤ 15 && rb ≤ 15 then relsDigest ty ml a else "bad-op"
     | _, _, _, _, _ => "bad-op"
   | ["self", ty, ra, a] =>
     match tyName ty, ra.toNat?, parseIntList a with
-    | some ty, some ra, some a => if ra ≤ 7 then relLine ty a a else "bad-op"
+    | some ty, some ra, some a => if ra ≤ 15 then relLine ty a a else "bad-op"
     | _, _, _ => "bad-op"
   | ["selfs", ty, ml, ra] =>
     match tyName ty, ml.toNat?, ra.toNat? with
-    | some ty, some ml, some ra => if ml ≤ 8 && ra ≤ 7 then selfsDigest ty ml else "bad-op"
+    | some ty, some ml, some ra => if ml ≤ 8 && ra ≤ 15 then selfsDigest ty ml else "bad-op"
     | _, _, _ => "bad-op"
   | ["relb", ty, base, pos, kind] =>
     match tyName ty, parseIntList base, pos.toNat?, kind.toNat? with
